@@ -2,6 +2,8 @@ package vc
 
 import (
 	"os"
+	"path/filepath"
+	"runtime"
 	"math/big"
 	"strings"
 	"fmt"
@@ -180,6 +182,14 @@ func (e *Exec) enterHeader(st *State, fr *Frame, h, prev *ssa.BasicBlock) (bool,
 		limit = n
 	} else if e.symExit[h] {
 		limit = 40
+	}
+	if isBack && fr.Iter[h] >= 2 && fr.Iter[h] <= limit && e.W.forceUnroll(fr.Fn, li.ordinal[h]) && st.Record == nil {
+		// a bounded loop in an expanded callee: paths that contradict themselves would otherwise be carried to the
+		// bound, each forking further on the way
+		if e.quickValid(st, e.C.False()) {
+			st.Dead = true
+			return false, nil
+		}
 	}
 	if fr.Iter[h] > limit {
 		if e.W.forceUnroll(fr.Fn, li.ordinal[h]) {
@@ -945,7 +955,11 @@ func (e *Exec) quickValid(st *State, g *Term) bool {
 	if res.Status != "sat" && res.Status != "unsat" {
 		res = e.W.PF.Quick(script, 10.0)
 	}
-	debugf("quick %s %s %.2fs size=%d", res.Status, res.Solver, res.TimeS, len(script))
+	if os.Getenv("GOVC_DEBUG") != "" {
+		_, f1, l1, _ := runtime.Caller(1)
+		_, f2, l2, _ := runtime.Caller(2)
+		debugf("quick %s %s %.2fs size=%d from %s:%d %s:%d", res.Status, res.Solver, res.TimeS, len(script), filepath.Base(f1), l1, filepath.Base(f2), l2)
+	}
 	return res.Status == "unsat"
 }
 
